@@ -29,4 +29,17 @@
   static inline T *N##_index(struct N *v, size_t i) { __CPROVER_assert(i < v->size, "vector::operator[] index in range"); return &v->data[i]; } \
   static inline T *N##_back(struct N *v) { __CPROVER_assert(v->size > 0, "vector::back on a non-empty vector"); return &v->data[v->size - 1]; } \
   static inline T *N##_front(struct N *v) { __CPROVER_assert(v->size > 0, "vector::front on a non-empty vector"); return &v->data[0]; }
+/* fixed-capacity variant for element types that contain a union (symbolic-size arrays of such structs exhaust the
+ * SAT back end, DESIGN section 2): growth beyond CAP is cut off by an assumption => every result is B(CAP). */
+#define V_VECFIX_DECL(T, N, CAP) \
+  struct N { T data[CAP]; size_t size; }; \
+  static inline void N##_init(struct N *v) { v->size = 0; } \
+  static inline void N##_destroy(struct N *v) { v->size = 0; } \
+  static inline size_t N##_size(const struct N *v) { return v->size; } \
+  static inline _Bool N##_empty(const struct N *v) { return v->size == 0; } \
+  static inline void N##_reserve(struct N *v, size_t n) { (void)v; (void)n; } \
+  static inline void N##_clear(struct N *v) { v->size = 0; } \
+  static inline void N##_push_back(struct N *v, T x) { __CPROVER_assume(v->size < CAP); v->data[v->size] = x; v->size++; } \
+  static inline T *N##_at(struct N *v, size_t i) { if (i >= v->size) { __exc = V_EXC_OUT_OF_RANGE; return NULL; } return &v->data[i]; } \
+  static inline T *N##_index(struct N *v, size_t i) { __CPROVER_assert(i < v->size, "vector::operator[] index in range"); return &v->data[i]; }
 #endif
